@@ -276,7 +276,7 @@ class Parser:
 
     def parse_number(self, token: Token) -> int:
         """Return the value of a NUMBER or INTEGER token, a 32 bit integer in pest."""
-        if len(token.value) <= 11:  # noqa: PLR2004
+        if len(token.value.lstrip("-").lstrip("0")) <= 10:  # noqa: PLR2004
             value = int(token.value)
             if -0x80000000 <= value <= 0xFFFFFFFF:  # noqa: PLR2004
                 return value
